@@ -82,6 +82,13 @@ Fixpoint splitn (c : Z) (n : nat) (s : bytes) : list bytes :=
   | S n' => match cut c s with None => [s] | Some (a, b) => a :: splitn c n' b end
   end.
 
+(* the remainder of s after its k-th separator (s itself when there are fewer) = last element of SplitN(s, sep, k+1) *)
+Fixpoint after_cuts (c : Z) (k : nat) (s : bytes) : bytes :=
+  match k with
+  | O => s
+  | S k' => match cut c s with Some (_, b) => after_cuts c k' b | None => s end
+  end.
+
 Definition lower_byte (b : Z) : Z := if (65 <=? b) && (b <=? 90) then b + 32 else b.
 Definition to_lower (s : bytes) : bytes := map lower_byte s.
 
@@ -136,9 +143,11 @@ Definition parse_int (bits : Z) (s : bytes) : option Z :=
   end.
 
 (* strconv.ParseBool *)
+Definition true_spellings : list bytes := Eval cbv in [bs "1"; bs "t"; bs "T"; bs "TRUE"; bs "true"; bs "True"].
+Definition false_spellings : list bytes := Eval cbv in [bs "0"; bs "f"; bs "F"; bs "FALSE"; bs "false"; bs "False"].
 Definition parse_bool_go (s : bytes) : option bool :=
-  if existsb (beq_bytes s) [bs "1"; bs "t"; bs "T"; bs "TRUE"; bs "true"; bs "True"] then Some true
-  else if existsb (beq_bytes s) [bs "0"; bs "f"; bs "F"; bs "FALSE"; bs "false"; bs "False"] then Some false
+  if existsb (beq_bytes s) true_spellings then Some true
+  else if existsb (beq_bytes s) false_spellings then Some false
   else None.
 
 (* encoding/hex.DecodeString *)
@@ -162,14 +171,17 @@ Fixpoint hex_decode (s : bytes) : option bytes :=
 (* ---- time.ParseDuration ---- *)
 Inductive dres := DOk (ns : Z) | DErr | DUnmodelled.
 
-Definition unit_ns (u : bytes) : option Z :=
-  if beq_bytes u (bs "ns") then Some 1
-  else if beq_bytes u (bs "us") then Some 1000
-  else if beq_bytes u (bs "ms") then Some 1000000
-  else if beq_bytes u (bs "s") then Some 1000000000
-  else if beq_bytes u (bs "m") then Some 60000000000
-  else if beq_bytes u (bs "h") then Some 3600000000000
-  else None.
+Fixpoint lookup {V} (k : bytes) (m : list (bytes * V)) : option V :=
+  match m with
+  | [] => None
+  | (k', v) :: r => if beq_bytes k k' then Some v else lookup k r
+  end.
+
+(* unitMap without the two non-ASCII spellings of the micro-second *)
+Definition unit_table : list (bytes * Z) :=
+  Eval cbv in [(bs "ns", 1); (bs "us", 1000); (bs "ms", 1000000); (bs "s", 1000000000);
+               (bs "m", 60000000000); (bs "h", 3600000000000)].
+Definition unit_ns (u : bytes) : option Z := lookup u unit_table.
 
 (* leadingInt: the digits are consumed one by one with two overflow checks *)
 Fixpoint leading_int (x : Z) (s : bytes) : option (Z * bytes) :=
@@ -212,7 +224,7 @@ Fixpoint pd_loop (fuel : nat) (d : Z) (s : bytes) : dres :=
 
 Definition go_parse_duration (s : bytes) : dres :=
   if negb (is_ascii s) || contains_byte 46 s || has_prefix [43] s || has_prefix [45] s then DUnmodelled
-  else if beq_bytes s (bs "0") then DOk 0
+  else if beq_bytes s [48] then DOk 0
   else match s with
        | [] => DErr
        | _ => pd_loop (length s) 0 s
@@ -279,16 +291,14 @@ Qed.
 Lemma trim_suffix_no s p : has_suffix p s = false -> trim_suffix s p = s.
 Proof. unfold trim_suffix; now intros ->. Qed.
 
-Lemma splitn_last c k s d :
-  last (splitn c (S k) s) d =
-  (fix after (k : nat) (s : bytes) : bytes :=
-     match k with O => s | S k' => match cut c s with Some (_, b) => after k' b | None => s end end) k s.
+Lemma splitn_last c k s d : last (splitn c (S k) s) d = after_cuts c k s.
 Proof.
   revert s; induction k as [|k IH]; intros s; [reflexivity|].
-  cbn [splitn]. destruct (cut c s) as [[a b]|] eqn:E; [|reflexivity].
-  specialize (IH b). destruct (splitn c (S k) b) eqn:F.
-  - destruct k; cbn in F; [discriminate|]. destruct (cut c b) as [[? ?]|]; discriminate.
-  - cbn [last]. cbn [last] in IH. exact IH.
+  change (splitn c (S (S k)) s) with
+    (match cut c s with None => [s] | Some (a, b) => a :: splitn c (S k) b end).
+  cbn [after_cuts]. destruct (cut c s) as [[a b]|] eqn:E; [|reflexivity].
+  rewrite <- IH. destruct (splitn c (S k) b) eqn:F; [|reflexivity].
+  exfalso. destruct k; cbn in F; [discriminate|]. destruct (cut c b) as [[? ?]|]; discriminate.
 Qed.
 
 Lemma drop_while_false p s : match s with [] => True | c :: _ => p c = false end -> drop_while p s = s.
@@ -326,7 +336,7 @@ Proof.
   intros Ha Hb [H1 H2]. unfold trim_space, trim_left, trim_right.
   rewrite drop_while_app_true by exact Ha.
   destruct s as [|c s].
-  - cbn [app]. rewrite (drop_while_app_true is_space b []) by (rewrite app_nil_r in *; exact Hb) || idtac.
+  - cbn [app].
     assert (drop_while is_space b = []) as ->.
     { rewrite <- (app_nil_r b). rewrite drop_while_app_true by exact Hb. reflexivity. }
     reflexivity.
